@@ -115,34 +115,7 @@ def check(ctx):
         else:
             ctx.ob("R17.1", f"{k}|benign-reader", True, site, f"unsynchronised reader listed benign: {cls[1]}", nontrivial=False)
     ctx.floor("R17.1", 16)
-    # ------------------------------------------------------------------ R17.2 refcount pre-load = copies made (ogre_arc)
-    for name in ("multi.ogre_arc.atomic", "multi.ogre_arc.full_sync"):
-        k = f"{R.CHANNELS[name]} as {PROD}::send_derived"
-        body = Body(fx.fn(k)); dg = D.Dag(body)
-        inc = [(b, c) for (b, c) in body.calls if c.get("fname") == "increment_references"]
-        cp = [(b, c) for (b, c) in body.calls if c.get("fname") == "raw_copy"]
-        site = f"{body.f['file']}:{body.f['line']}"
-        if len(inc) != 1 or not cp:
-            ctx.ob("R17.2", f"{k}|preload-and-copy-present", False, site, f"{len(inc)} increment_references / {len(cp)} raw_copy calls; the pairing rule needs one pre-load and at least one copy"); continue
-        ib, ic = inc[0]
-        n = strip_casts(dg.expr(ic["args"][1]))
-        rng = None
-        for b in body.reachable:
-            for st in body.stmts(b):
-                if st[0] == "A" and st[2][0] == "Agg" and st[2][1][0] == "Adt" and st[2][1][1].endswith("ops::Range"):
-                    rng = [strip_casts(dg.expr(o)) for o in st[2][2]]
-        ok_n = rng is not None and rng[0] == ("const", 0) and D.norm(rng[1]) == D.norm(n)
-        ctx.ob("R17.2", f"{k}|preload-equals-trip-count", ok_n, body.loc(ib), f"increment_references({show(n)}) vs loop range {[show(x) for x in rng] if rng else None}; required: the same value bounds the loop")
-        ctx.ob("R17.2", f"{k}|preload-before-first-copy", all(body.dominates(ib, cb) for (cb, _) in cp), body.loc(ib), "the count is raised before the first copy becomes visible to a consumer")
-        cps = {cb for (cb, _) in cp}
-        loop = [h for h, blocks in body.loops.items() if cps <= blocks]
-        lo = hi = 0
-        if loop:
-            h = min(loop, key=lambda x: len(body.loops[x]))
-            lo, hi = util.count_per_iteration(body, h, lambda b: b in cps)
-        ctx.ob("R17.2", f"{k}|one-reference-consumed-per-iteration", (lo, hi) == (1, 1), body.loc(cp[0][0]),
-               f"between {lo} and {hi} raw copies (each owning one pre-loaded reference) per loop iteration; required exactly 1 on every path -- an iteration that makes no copy "
-               "(listener vanished after the count was read) must still give its reference back, otherwise the count never reaches zero and the payload's pool slot stays occupied forever")
+    check_refcount_pairing(ctx)
     # ------------------------------------------------------------------ R17.3 drain before release
     S.check_drain_before_release(ctx, "R17.3")
     # ------------------------------------------------------------------ R17.4 fan-out reads the live list, not a snapshot
@@ -195,3 +168,35 @@ def check(ctx):
     acc = Body(fx.fn(SM + "::used_streams"))
     ctx.ob("R17.5", f"{SM}::used_streams|shared-ref", acc.locals[0]["ty"].startswith("&[u32") or acc.locals[0]["ty"].startswith("&'") , "", f"accessor returns {acc.locals[0]['ty']}", nontrivial=False)
     ctx.floor("R17.2", 6); ctx.floor("R17.3", 20); ctx.floor("R17.4", 10)
+
+def check_refcount_pairing(ctx):
+    """R17.2: the ogre_arc fan-out pre-loads exactly as many references as it hands out copies (shared with C05 / C03)"""
+    fx = ctx.fx
+    # ------------------------------------------------------------------ R17.2 refcount pre-load = copies made (ogre_arc)
+    for name in ("multi.ogre_arc.atomic", "multi.ogre_arc.full_sync"):
+        k = f"{R.CHANNELS[name]} as {PROD}::send_derived"
+        body = Body(fx.fn(k)); dg = D.Dag(body)
+        inc = [(b, c) for (b, c) in body.calls if c.get("fname") == "increment_references"]
+        cp = [(b, c) for (b, c) in body.calls if c.get("fname") == "raw_copy"]
+        site = f"{body.f['file']}:{body.f['line']}"
+        if len(inc) != 1 or not cp:
+            ctx.ob("R17.2", f"{k}|preload-and-copy-present", False, site, f"{len(inc)} increment_references / {len(cp)} raw_copy calls; the pairing rule needs one pre-load and at least one copy"); continue
+        ib, ic = inc[0]
+        n = strip_casts(dg.expr(ic["args"][1]))
+        rng = None
+        for b in body.reachable:
+            for st in body.stmts(b):
+                if st[0] == "A" and st[2][0] == "Agg" and st[2][1][0] == "Adt" and st[2][1][1].endswith("ops::Range"):
+                    rng = [strip_casts(dg.expr(o)) for o in st[2][2]]
+        ok_n = rng is not None and rng[0] == ("const", 0) and D.norm(rng[1]) == D.norm(n)
+        ctx.ob("R17.2", f"{k}|preload-equals-trip-count", ok_n, body.loc(ib), f"increment_references({show(n)}) vs loop range {[show(x) for x in rng] if rng else None}; required: the same value bounds the loop")
+        ctx.ob("R17.2", f"{k}|preload-before-first-copy", all(body.dominates(ib, cb) for (cb, _) in cp), body.loc(ib), "the count is raised before the first copy becomes visible to a consumer")
+        cps = {cb for (cb, _) in cp}
+        loop = [h for h, blocks in body.loops.items() if cps <= blocks]
+        lo = hi = 0
+        if loop:
+            h = min(loop, key=lambda x: len(body.loops[x]))
+            lo, hi = util.count_per_iteration(body, h, lambda b: b in cps)
+        ctx.ob("R17.2", f"{k}|one-reference-consumed-per-iteration", (lo, hi) == (1, 1), body.loc(cp[0][0]),
+               f"between {lo} and {hi} raw copies (each owning one pre-loaded reference) per loop iteration; required exactly 1 on every path -- an iteration that makes no copy "
+               "(listener vanished after the count was read) must still give its reference back, otherwise the count never reaches zero and the payload's pool slot stays occupied forever")
